@@ -82,7 +82,7 @@ impl Prop for C09 {
         any_graph_strategy(tier.pick(24, 50))
     }
     fn random_cases(&self, tier: Tier) -> u32 {
-        tier.pick(30_000, 500_000)
+        tier.pick(300_000, 3_000_000)
     }
     fn check(&self, case: &AnyGraph) -> Outcome {
         let mut out = Outcome::new();
